@@ -1,7 +1,7 @@
 (* C09_Props.v — the property theorems of C09 and nothing else.
    Each is closed by `exact <lemma>` and followed by Print Assumptions. *)
 From Coq Require Import Lia.
-From V Require Import C09_Spec C09_Proofs C09_ProofsW C09_ProofsJ C09_ProofsS.
+From V Require Import C09_Spec C09_Proofs C09_ProofsW C09_ProofsJ C09_ProofsS C09_ProofsC.
 Open Scope N_scope.
 
 (* Chunking never matters: for EVERY byte string, read schedule, error-delivery mode and
@@ -117,6 +117,22 @@ Theorem json_any_sched_jscan : forall d sch eg t,
   json_all jscan (mk_src d sch eg t) = json_expected jscan t d.
 Proof. exact json_any_sched_jscan_proof. Qed.
 Print Assumptions json_any_sched_jscan.
+
+(* under stability a value need only be recognised exactly at its end *)
+Theorem stable_ok : forall scan, scanner_stable scan -> forall v, scan v = SComplete v [] -> scanner_ok scan v.
+Proof. exact stable_ok_proof. Qed.
+Print Assumptions stable_ok.
+
+(* round trip through jsonEncoder -> JSON decoder and every cut / ending, no oracle hypothesis left *)
+Theorem json_roundtrip_jscan : forall vs sch eg, Forall jscan_value vs ->
+  json_all jscan (mk_src (wire_of json_encode vs None) sch eg TEOF) = (vs, JFErr MEOF).
+Proof. exact json_roundtrip_jscan_proof. Qed.
+Print Assumptions json_roundtrip_jscan.
+
+Theorem json_cut_jscan : forall vs v j sch eg t, Forall jscan_value vs -> jscan_value v -> (j < length v)%nat ->
+  json_all jscan (mk_src (json_write_all vs ++ firstn j v) sch eg t) = (vs, json_end t j).
+Proof. exact json_cut_jscan_proof. Qed.
+Print Assumptions json_cut_jscan.
 
 (* ---------- "rejected before allocating it" ---------- *)
 (* no call of read() - hence no make([]byte, n) and no buffer handed to Read - is ever made for more
@@ -254,3 +270,5 @@ Example ex_json_expected_garbage :
   json_all jscan (mk_src (bs "{} ]") [1; 1; 1]%nat false TEOF) = ([bs "{}"], JFSyntax) /\
   json_expected jscan TEOF (bs "{} ]") = ([bs "{}"], JFSyntax).
 Proof. vm_compute. auto. Qed.
+Example ex_jscan_value : jscan_value (bs "{""k{"":[""]"",{}]}") /\ ~ jscan_value (bs " {}") /\ ~ jscan_value (bs "{}{}").
+Proof. unfold jscan_value. split; [vm_compute; reflexivity|split; intro H; vm_compute in H; discriminate]. Qed.
